@@ -70,7 +70,7 @@ package chacha20
 //@ canary ensures s.len == old(s.len)
 
 //@ func (*Cipher).XORKeyStream
-//@ props C03
+//@ props C03 C53
 //@ reindex
 //@ requires cinv(s)
 //@ requires ref(dst) != ref(s.buf[:]) && ref(src) != ref(s.buf[:])
